@@ -6,6 +6,8 @@ LEM(wake)    W1 (every enabling change is followed by a set()) + W2 (the worker 
              only after waking) + NFC (nobody else clears) + SW (nobody else waits) ==> a worker is never asleep on a cleared event
              while work is enabled and nobody owes it a set().   Inductive invariant over a 9-transition system; three negative
              controls (each dropped premise makes the invariant non-inductive) guard the encoding against vacuity.
+LEM(fold)    iterating the per-callback contract of BoolOperation.handle_done over any completion order = the or / and left fold (first
+             deciding input, else the last); two negative controls per operation.
 LEM(compose) map_spec(h, map_spec(g, o)) = map_spec(h o g, o) for uninterpreted, possibly raising g, h and every outcome o; and the
              flat-map analogue  flat(g, flat(f, o)) = flat(f >=> g, o).
 """
@@ -105,6 +107,60 @@ def _lem_compose(repo):
                  r2 == z3.unsat, ["C13", "C01"], {"z3": str(r2)})]
 
 
+def _fold(kind, drop=None):
+    """LEM(fold) for f_or / f_and.  Code side = the per-callback contract of BoolOperation.handle_done (callbacks serialised by BoolLock, every
+    registered input handled once): state (done, remaining, out); spec side = the left fold over the order in which the n inputs finish:
+    (found, val, count), val = the first input satisfying the deciding predicate, otherwise the latest one.  Returns [(name, z3 result)]."""
+    X = z3.DeclareSort("Input")
+    ok, truthy = z3.Function("ok", X, z3.BoolSort()), z3.Function("truthy", X, z3.BoolSort())
+    x, out, out2, val, val2 = z3.Consts("x out out2 val val2", X)
+    done, done2, found, found2 = z3.Bools("done done2 found found2")
+    r, r2, count, count2, n = z3.Ints("r r2 count count2 n")
+    good = z3.And(ok(x), truthy(x))
+    pred = good if kind == "or" else z3.Not(good)                      # the input that decides early
+    last = (r - 1 == 0) if drop != "last" else z3.BoolVal(False)      # control: forgetting the `last input decides` rule
+    decide = z3.Or(pred if drop != "pred" else z3.Not(pred), last)     # control: the wrong deciding predicate
+    # one callback of an input that is still registered (contract clauses `decision is recorded ... exactly when this input decides`,
+    # `a deciding input writes the output`, `already decided ...: nothing is written`)
+    code = z3.And(r2 == r - 1, z3.If(done, z3.And(done2, out2 == out), z3.And(done2 == decide, z3.If(decide, out2 == x, out2 == out))))
+    spec = z3.And(count2 == count + 1, z3.If(found, z3.And(found2, val2 == val), z3.And(found2 == pred, val2 == x)))
+
+    def inv(done_, out_, r_, found_, val_, count_):
+        return z3.And(n >= 1, count_ >= 0, count_ <= n, r_ == n - count_,
+                      done_ == z3.Or(found_, z3.And(count_ == n)), z3.Implies(done_, out_ == val_))
+    res = []
+    s_ = z3.Solver()
+    s_.add(n >= 1, z3.Not(inv(z3.BoolVal(False), out, n, z3.BoolVal(False), val, z3.IntVal(0))))
+    res.append(("init", s_.check()))
+    s_ = z3.Solver()
+    s_.add(inv(done, out, r, found, val, count), count < n, code, spec, z3.Not(inv(done2, out2, r2, found2, val2, count2)))
+    res.append(("step", s_.check()))
+    s_ = z3.Solver()
+    s_.add(inv(done, out, r, found, val, count), count == n, z3.Not(z3.And(done, out == val)))
+    res.append(("conclusion", s_.check()))
+    return res
+
+
+def _lem_fold(repo):
+    out = []
+    for kind, what in (("or", "the first input to finish truthy, otherwise the last input to finish"),
+                       ("and", "the first input to finish falsy (false value, exception or cancellation), otherwise the last input to finish")):
+        res = _fold(kind)
+        out.append(S.ob("LEM(fold) f_%s: iterating the per-callback contract of handle_done over ANY completion order of n >= 1 inputs decides the output "
+                        "exactly once, by %s (simulation of the left fold; init, step, conclusion)" % (kind, what), "LEM",
+                        all(r == z3.unsat for _, r in res), ["C14"],
+                        {"checks": [(nm, str(r)) for nm, r in res],
+                         "hypotheses discharged by": "units BoolOperation.handle_done[*] (step), BoolOperation.__init__[*] (init: every input registered, not decided), "
+                                                     "static regions BoolLock (callbacks serialised)"}))
+        for d in ("last", "pred"):
+            r_ = _fold(kind, drop=d)
+            out.append(S.ob("LEM(fold) f_%s control: with %s the simulation FAILS (the encoding is not vacuous)" %
+                            (kind, "the `last input decides` rule dropped" if d == "last" else "the deciding predicate negated"), "LEM",
+                            any(x == z3.sat for _, x in r_), ["C14"], {"checks": [(nm, str(x)) for nm, x in r_]}))
+    return out
+
+
 UNITS = []
-STATIC = [dict(name="lemma-wake", props=["C03", "C05", "C07", "C08", "C09", "C11"], run=_lem_wake),
+STATIC = [dict(name="lemma-fold", props=["C14"], run=_lem_fold),
+          dict(name="lemma-wake", props=["C03", "C05", "C07", "C08", "C09", "C11"], run=_lem_wake),
           dict(name="lemma-compose", props=["C13", "C01", "C19"], run=_lem_compose)]
